@@ -2,6 +2,8 @@ package kit
 
 import (
 	"context"
+	"fmt"
+	"runtime/debug"
 	"strings"
 	"sync"
 	"time"
@@ -85,8 +87,27 @@ type Running struct {
 	Prov *Provider
 	Env  *Env
 
-	done chan struct{}
-	err  error
+	done     chan struct{}
+	err      error
+	runPanic *RunPanic
+}
+
+// RunPanic is a panic that escaped Collector.Run on the runner's goroutine. Wait, Stop and
+// AwaitRunning re-raise it (as *RunPanic) on the caller's goroutine, so that a check's per-case
+// recover sees it instead of the process dying; Stack is the stack of the original panic.
+type RunPanic struct {
+	Value any
+	Stack string
+}
+
+func (p *RunPanic) Error() string { return fmt.Sprintf("panic in Collector.Run: %v", p.Value) }
+
+// UnwrapPanic returns value and stack of a recovered panic, looking through a re-raised *RunPanic.
+func UnwrapPanic(pv any, stack string) (any, string) {
+	if rp, ok := pv.(*RunPanic); ok {
+		return rp.Value, rp.Stack
+	}
+	return pv, stack
 }
 
 // TelemetryYAML is the service::telemetry section every kit configuration uses: no metrics server,
@@ -122,6 +143,12 @@ func (e *Env) LaunchProvider(prov *Provider) (*Running, error) {
 	r := &Running{Col: col, Prov: prov, Env: e, done: make(chan struct{})}
 	go func() {
 		defer close(r.done)
+		defer func() {
+			if v := recover(); v != nil {
+				r.runPanic = &RunPanic{Value: v, Stack: string(debug.Stack())}
+				r.err = r.runPanic
+			}
+		}()
 		r.err = col.Run(context.Background())
 	}()
 	return r, nil
@@ -146,6 +173,7 @@ func (r *Running) AwaitRunning() bool {
 	for i := 0; ; i++ {
 		select {
 		case <-r.done:
+			r.reraise()
 			return false
 		default:
 		}
@@ -166,13 +194,21 @@ func (r *Running) Stop() error {
 	r.Prov.disarm()
 	r.Col.Shutdown()
 	<-r.done
+	r.reraise()
 	return r.err
+}
+
+func (r *Running) reraise() {
+	if r.runPanic != nil {
+		panic(r.runPanic)
+	}
 }
 
 // Wait waits for Run to return by itself and returns its error.
 func (r *Running) Wait() error {
 	<-r.done
 	r.Prov.disarm()
+	r.reraise()
 	return r.err
 }
 
